@@ -136,7 +136,7 @@ static void scenario() {
         // spawned task pending; a task enqueued into arena B must get the worker - it must not be granted to A, where it cannot get a slot.
         // Both application threads are inside A *before* the spawn (until then A has no demand, so the worker cannot take one of its slots
         // and end up parked in the user body, which would make the scenario wait for a thread that the harness itself holds).
-        tbb::global_control gc(tbb::global_control::max_allowed_parallelism, 2); tbb::task_arena A(2, 0), B(2, 1); A.initialize(); B.initialize();
+        tbb::global_control gc(tbb::global_control::max_allowed_parallelism, 2); tbb::task_arena A(2, (unsigned)vf_param_int("resA", 0)), B(2, 1); A.initialize(); B.initialize();   // resA=1: the second application thread sits in the first non-reserved slot
         static int inA, spawned, leave, ran, evB, idxA[2]; inA = spawned = leave = ran = evB = 0; idxA[0] = idxA[1] = -1;
         auto ids = gated(2, [&](int) { is_ext[vf_self()] = true; (void)tbb::this_task_arena::max_concurrency(); }, [&](int i) {
             A.execute([&, i] { tbb::task_group tg; idxA[i] = tbb::this_task_arena::current_thread_index(); inA++; vf_wake(&inA); while (inA < 2) vf_block_on(&inA);
